@@ -61,6 +61,40 @@ def oracle(stream, cid, ops, outs):
         if not ok:
             fails.append({"oracle": "server_connect_sound", "detail": "server Connect for peer %d at %d ms without a delivered ACK carrying a nonce the server issued (issued %s, acks %s)" %
                           (p, t // 10**6, [n for (_, n) in synacks][-3:], acks[-3:]), "signature": {"oracle": "server_connect_sound"}})
+    # --- completeness on the server side: a delivered ACK carrying the nonce of the LATEST SYN-ACK the server sent to that
+    #     address, sent at most 2.5 s earlier (so the pending entry is still alive: it resends every 2 s for 22 s), completes the
+    #     handshake - forged / stale SYNs in between must not have reset or replaced the pending entry
+    t_now = 0; pend_ack = None
+    connects = {}
+    for (t, tag, p, _) in sev:
+        if tag == "C":
+            connects.setdefault(p, []).append(t)
+    srv_steps = []
+    tcur = 0
+    for op in ops:
+        w = op.split(" ")
+        if w[0] == "t": tcur = int(w[1])
+        elif w[0] == "sstep": srv_steps.append(tcur)
+    dropped = [(t, q) for (t, w, q) in calls if w == "sdrop"]
+    for (t, dr, p, d) in delivered:
+        if dr != "c2s" or d.get("kind") != "hsack" or d.get("forged"):
+            continue
+        n = int(d["f"][1])
+        sa = [x for x in log.get((p, "s2c"), []) if x["kind"] == "synack" and x["time"] <= t]
+        if not sa:
+            continue
+        last_sa = sa[-1]
+        if int(last_sa["f"][2]) != n or t - last_sa["time"] > 2_500 * 10**6:
+            continue
+        if any(q == p and t - 30_000 * 10**6 <= td <= t for (td, q) in dropped):
+            continue
+        step_t = next((st for st in srv_steps if st >= t), None)
+        if step_t is None:
+            continue
+        if not any(tc <= step_t for tc in connects.get(p, [])):
+            fails.append({"oracle": "server_connect_complete", "detail": "peer %d: the ACK delivered at %d ms carries the nonce %d of the server's latest SYN-ACK (sent at %d ms) but the server reported no Connect" %
+                          (p, t // 10**6, n, last_sa["time"] // 10**6), "signature": {"oracle": "server_connect_complete"}})
+            break
     # --- client side
     for i, evs in cev.items():
         my = [int(d["f"][2]) for d in log.get((i, "c2s"), []) if d["kind"] == "syn"]
